@@ -53,7 +53,7 @@ def configs(draw, keepalive=False, priv_ext=True):
     cfg = {}
     for side in ('a', 'b'):
         cfg[side] = dict(seg_init=draw(st.sampled_from(SEG_SIZES)), mru=draw(st.sampled_from(SEG_SIZES)),
-                         keepalive=0, idle=0)
+                         keepalive=draw(st.sampled_from([0, 0, 0, 1, 3])) if keepalive else 0, idle=0)
         if draw(st.integers(0, 3)) == 0:
             # adaptive segment sizing: needs the virtual clock to move between a segment and its ACK ('wait' ops)
             cfg[side]['target_ack'] = draw(st.sampled_from([1, 5]))
@@ -98,8 +98,8 @@ def run_ops(max_len=40):
 
 @st.composite
 def cases(draw, max_ops=14, terminate=False, closes=False, vanish=False, allow_zero=True, queries=False,
-          priv_ext=True, caps_change=True):
-    cfg = draw(configs(priv_ext=priv_ext))
+          priv_ext=True, caps_change=True, keepalive=False):
+    cfg = draw(configs(priv_ext=priv_ext, keepalive=keepalive))
     n_ops = draw(st.integers(1, max_ops))
     ops = []
     if draw(st.integers(0, 9)) < 6:
@@ -107,6 +107,9 @@ def cases(draw, max_ops=14, terminate=False, closes=False, vanish=False, allow_z
     for _ in range(n_ops):
         kinds = ['send', 'send', 'run', 'run', 'run', 'pop']
         if any(cfg[x].get('target_ack') for x in ('a', 'b')):
+            kinds += ['wait', 'wait']
+        if any(cfg[x].get('keepalive') for x in ('a', 'b')):
+            # keepalive timers fire between (and in the middle of) the messages of a transfer held up by the network
             kinds += ['wait', 'wait']
         if caps_change:
             kinds.append('cap')
@@ -137,6 +140,32 @@ def cases(draw, max_ops=14, terminate=False, closes=False, vanish=False, allow_z
             ops.append(['close', draw(_side())])
         elif kind == 'vanish':
             ops.append(['vanish', draw(st.sampled_from(['ab', 'ba']))])
+    return {'cfg': cfg, 'ops': ops}
+
+
+@st.composite
+def timer_midmessage_cases(draw, terminate=False):
+    ''' Histories in which a timer of the sender (keepalive) fires while one large message is partly handed to a slow
+    network: segments of more than one connection-level chunk (10240 octets), a small link capacity, and virtual
+    time passing in between the scheduling steps. '''
+    cfg = {}
+    for side in ('a', 'b'):
+        cfg[side] = dict(seg_init=draw(st.sampled_from([10240, 100000])), mru=draw(st.sampled_from([10240, 100000])),
+                         keepalive=draw(st.sampled_from([1, 1, 3])), idle=0)
+    cfg['cap_ab'] = draw(st.sampled_from([1, 5, 64, 4096]))
+    cfg['cap_ba'] = draw(st.sampled_from([None, 64, 4096]))
+    cfg['regime'] = draw(st.sampled_from(REGIMES))
+    cfg['priv_ext'] = False
+    cfg['tls'] = draw(st.sampled_from([None, None, 'plain']))
+    ops = [['estab'], ['send', 'A', draw(st.sampled_from([10241, 20500, 25000, 40000])), draw(st.integers(0, 10 ** 6))]]
+    for _ in range(draw(st.integers(1, 5))):
+        ops.append(draw(run_ops()))
+        ops.append(['wait', draw(st.sampled_from([999, 1000, 3000, 5000]))])
+        if draw(st.integers(0, 5)) == 0:
+            ops.append(['send', draw(_side()), draw(st.sampled_from([1, 300, 10241])), draw(st.integers(0, 10 ** 6))])
+        if terminate and draw(st.integers(0, 7)) == 0:
+            ops.append(['term', draw(_side()), 0])
+    ops.append(draw(run_ops()))
     return {'cfg': cfg, 'ops': ops}
 
 
